@@ -300,6 +300,12 @@ func (ph *ptraceHandle) handleTrap(pid int) error {
 			return nil
 
 		case TraceKill:
+			// the handler reads the arguments from the tracee's memory: if the
+			// tracee was killed meanwhile (a cancelled run) it was shown garbage
+			// and there is nothing left to refuse; the death is reported by wait4
+			if _, err := getTrapContext(pid); err == unix.ESRCH {
+				return nil
+			}
 			return runner.StatusDisallowedSyscall
 		}
 	}
